@@ -39,7 +39,9 @@ class ModCase:
     def module_source(self, k):
         m = self.modules[k]
         imports = ['import "%s" ;' % n for n in m["imports"]]
-        decls = ["%s ;" % " ".join(M.type_tokens(ty) + [nm]) for ty, nm in m["globals"]]
+        decls = ["struct %s { %s }" % (sn, " ".join("%s %s ;" % (M.tname(ft), fn) for ft, fn in fields))
+                 for sn, fields in m.get("structs", [])]
+        decls += ["%s ;" % " ".join(M.type_tokens(ty) + [nm]) for ty, nm in m["globals"]]
         funcs = [M.to_source(self.prog.funcs[i], "full") for i in m["funcs"]]
         place = self.placement[k]
         if place == "first" or not imports:
@@ -70,8 +72,10 @@ def modules_case(draw, n_inputs=2):
     shape = draw(st.sampled_from(sorted(SHAPES)))
     dag = SHAPES[shape]
     n = len(dag)
-    g = GM(draw, {"storage": False, "vec": True, "calls": True, "callpct": 40,
+    shared_struct = draw(st.integers(0, 9)) < 4
+    g = GM(draw, {"storage": shared_struct, "vec": True, "calls": True, "callpct": 40,
                   "vtypes": [M.vec("float", 2), M.vec("float", 3)]})
+    struct_def = ("S0", [(INT, "sa"), (FLOAT, "sb")])
     ptypes = [INT, INT, FLOAT, FLOAT, M.vec("float", 2)]
     modules = []
     all_globals = []
@@ -85,6 +89,8 @@ def modules_case(draw, n_inputs=2):
         all_globals += mglobals
         # visible globals: only this module's own
         g.globals = {nm: ty for ty, nm in mglobals}
+        # a struct type defined by module 0 is visible there and in the modules importing m0 directly
+        g.structs = [struct_def] if shared_struct and (k == 0 or 0 in dag[k]) else []
         idxs = []
         own = []
         nfun = 1 if k == n - 1 else draw(st.integers(1, 2))
@@ -129,8 +135,9 @@ def modules_case(draw, n_inputs=2):
             g.funcs.append(f)
             idxs.append(len(g.funcs) - 1)
             own.append(len(g.funcs) - 1)
-        modules.append({"name": name, "imports": imports, "funcs": idxs, "globals": mglobals})
-    prog = M.Program([], all_globals, g.funcs)
+        modules.append({"name": name, "imports": imports, "funcs": idxs, "globals": mglobals,
+                        "structs": [struct_def] if shared_struct and k == 0 else []})
+    prog = M.Program([struct_def] if shared_struct else [], all_globals, g.funcs)
     entry = g.funcs[-1]
     inputs = []
     for _ in range(n_inputs):
